@@ -92,10 +92,10 @@ Definition r_op (e : sexp) : option op :=
         end
       else if String.eqb k "router" then
         match body with
-        | [ms; bare; fp] =>
-            match rLs r_method ms, rLs rN bare, rB fp with
-            | Some m', Some b', Some f' => Some (ORouter m' b' f')
-            | _, _, _ => None
+        | [ms; bare; fp; bad] =>
+            match rLs r_method ms, rLs rN bare, rB fp, rLs rN bad with
+            | Some m', Some b', Some f', Some x' => Some (ORouter m' b' f' x')
+            | _, _, _, _ => None
             end
         | _ => None
         end
